@@ -90,6 +90,13 @@ func (r *Report) OutcomeHash(h string) {
 	r.mu.Unlock()
 }
 
+// OutcomeCount returns the number of distinct outcomes recorded so far.
+func (r *Report) OutcomeCount() int {
+	r.mu.Lock()
+	defer r.mu.Unlock()
+	return len(r.outcomes)
+}
+
 // Sample keeps a few of the explored cases for the evidence file.
 func (r *Report) Sample(v any) {
 	r.mu.Lock()
